@@ -207,6 +207,9 @@ def run_chunk(chunk):
     with quiet():
         n = chunk['n']
         words = list(word_assignments(n, chunk['maxp']))
+        if chunk['maxp'] < n:
+            # beyond the bound on punctuation tokens: sentences that consist of paired punctuation only
+            words += [['"'] * n, ['('] * n, [['"', '('][i % 2] for i in range(n)], ['"'] * (n - 1) + ['w']]
         idx = 0
         for sh, k in sweep.iter_shapes(chunk):
             root = model.decorate(sh, lambda p, s: 'N' + ''.join(map(str, p)))
